@@ -627,6 +627,7 @@ package cmd
 //@   props C20 C16
 //@   requires r != nil && highRndMax >= 0 && highRndMax < 4611686018427387904 && (len(highPts) > 0 ==> highRet != nil && highRet.secondsPerPoint > 0) && r.secondsPerPoint > 0
 //@   ensures any: true
+//@   check[C20] covered_no_random: len(highPts) > 0 && t >= highPts[0].Time ==> !called("(*math/rand.Rand).Intn")
 //@ loop randomValWithHighSum#0
 //@   invariant bounds: 0 <= iter && iter <= len(highPts)
 
@@ -638,6 +639,9 @@ package cmd
 //@   ensures shape: len(result) == r.numberOfPoints && fresh(result)
 //@ loop randomPoints#0
 //@   invariant bounds: 0 <= i && i <= n && n == len(points) && points.arr > old(top)
+//@   stepcheck[C20] covered_is_sum: highPts.arr != 0 && highPts[0].Time < thisUntil && highPts[0].Time <= t && highPts[0].Time >= r.secondsPerPoint
+//@                 ==> calledInIter(randomValWithHighSum) && callarg(randomValWithHighSum, 0) == t && callarg(randomValWithHighSum, 5) === highPts
+//@                     && points[i - 1].Time == t && bits(points[i - 1].Value) == bits(callret(randomValWithHighSum, 0))
 
 //@ func randomPointsList
 //@   props C20 C16
@@ -661,6 +665,7 @@ package cmd
 //@                 && len(ptsList) == len(c.ArchiveInfoList) && (forall k :: 0 <= k && k < len(ptsList) ==> len(ptsList[k]) == c.ArchiveInfoList[k].numberOfPoints)
 //@   check[C20] empty: result0 == nil && !c.Fill ==> !called(updateFileDataWithPointsList)
 //@   check[C20] synced: result0 == nil ==> called("(*Whisper).Sync") && callret("(*Whisper).Sync", 0) == nil
+//@   check[C20,C05] failed_not_synced: result0 != nil && called("(*Whisper).Sync") ==> callret("(*Whisper).Sync", 0) != nil
 
 // ---------------------------------------------------------------- flag values (C07, C19)
 
